@@ -8,7 +8,7 @@ export CARGO_NET_OFFLINE=true
 git checkout -q -- . ; git clean -qfd -e _out
 git apply _out/patch$k.diff || { echo "SEED $wt $k: patch does not apply"; exit 1; }
 suite=$(cargo test --workspace --no-fail-fast --offline 2>&1 | grep "^test result" | awk '{p+=$4; f+=$6} END {print p" passed "f" failed"}')
-git apply _out/demo$k/demo.diff || { echo "SEED $wt $k: demo.diff does not apply"; git checkout -q -- .; exit 1; }
+[ ! -f _out/demo$k/demo.diff ] || git apply _out/demo$k/demo.diff || { echo "SEED $wt $k: demo.diff does not apply"; git checkout -q -- .; exit 1; }
 "$@" > _out/demo$k/with_patch.log 2>&1; with=$?
 git apply -R _out/patch$k.diff
 "$@" > _out/demo$k/without_patch.log 2>&1; without=$?
